@@ -187,6 +187,10 @@ func (i *InvalidationIndex) cutKeys(labeledKeys map[string][]string, labels ...s
 	defer i.mu.Unlock()
 
 	for _, label := range labels {
+		if _, alreadyCut := res[label]; alreadyCut {
+			continue
+		}
+
 		res[label] = labeledKeys[label]
 		delete(labeledKeys, label)
 	}
